@@ -9,6 +9,33 @@
 //     advance a cursor that is either a loop φ or a variable captured by a
 //     closure, and call closures once per section.
 //
+// Shapes that are decided the same way as the plain ones (added after
+// independently written behaviour-preserving refactors were rejected):
+//
+//   - a loop over a constant local table (an array or slice literal, possibly of
+//     structs, whose elements are fields of the subject) is UNROLLED: the body
+//     is read once per row with table[i] resolved to the row's value
+//     (tableLoop/unroll), so `for _, w := range [6]uint16{m.ID, …}` is six
+//     atoms and `for _, s := range sections {…}` is one repeat per section;
+//   - an in-module helper that is not itself a codec unit (X.Units) is analysed
+//     at its call site with its parameters bound to the caller's arguments:
+//     appenders func(buf, v…) ([]byte[, error]) including loops over a section
+//     (inlineAppender), cursor helpers func(data, off, v…) (T, newOff, error)
+//     including loops (inlineCursor), one-read getters (inlineReader);
+//   - one buffer of run-time size filled at computed offsets
+//     (make([]byte, len(name)+10+len(rdata)); copy; PutUintN(buf[off+k:], …))
+//     is a layout when the writes tile it exactly (symBufContent);
+//   - an output buffer that is a local variable captured by a closure
+//     (put16 := func(v uint16) { packet = AppendUint16(packet, v) }) lives in
+//     memory; its content is recovered from the stores to it and the calls of
+//     the closures that capture it, each closure summarised by what it appends
+//     (cell.go);
+//   - counted loops in any of their SSA forms (3-clause, range over a slice,
+//     range over an integer with its test at the latch) — Iter;
+//   - slices.Concat / bytes.Clone / slices.Clone / slices.Grow pass bytes
+//     through; string concatenation concatenates layouts; an index into a
+//     constant string by a constant is a constant (FoldConst).
+//
 // Nothing is executed. Encoders are read backwards from the returned slice
 // (as internal/codec does) but the contents of a fixed scratch buffer are
 // resolved flow-sensitively at the instruction that appends it. Decoders are
@@ -130,6 +157,13 @@ type Atom struct {
 	Loop     *Loop
 	In, Out  *Sym // repeat: cursor at iteration start / at the back edge
 	Local    bool // the value read is only used locally (a length, a tag)
+	// From: the read is made inside a cursor helper that was analysed at its
+	// call site (At is the call); its guards live in the helper.
+	From *X
+	// ret: (helper analysis) the value read is returned as result 0, after
+	// passing through retVia.
+	ret    bool
+	retVia string
 }
 
 func (a Atom) String() string {
@@ -235,6 +269,19 @@ type X struct {
 	Lits map[ssa.Value][]string
 	// Names: how opaque values are rendered (closure parameters bound at the call site).
 	Names map[ssa.Value]string
+	// Units: codec functions that are compared as a whole (Encode/Decode pairs);
+	// every other in-module helper may be analysed at its call site.
+	Units map[*ssa.Function]bool
+
+	// env: values resolved to other values while a loop over a constant table
+	// is being unrolled (table[i] → the element stored at index k).
+	env map[ssa.Value]ssa.Value
+	// symOf: linear forms assigned to values by the extractor itself (the new
+	// offset returned by an inlined cursor helper).
+	symOf map[ssa.Value]Sym
+
+	// cells: buffer variables captured by closures (cell.go)
+	cells map[ssa.Value]*cellInfo
 
 	idx      map[ssa.Instruction]int
 	loops    []*Loop
@@ -244,16 +291,34 @@ type X struct {
 }
 
 func New(w *prove.World, fn *ssa.Function) *X {
+	x := newX(w, fn)
+	x.findRoots()
+	return x
+}
+
+func newX(w *prove.World, fn *ssa.Function) *X {
 	x := &X{W: w, Fn: fn, FI: w.Info(fn), Roots: map[ssa.Value]string{}, Lits: map[ssa.Value][]string{},
-		Names: map[ssa.Value]string{}, idx: map[ssa.Instruction]int{}, lenCanon: map[ssa.Value]ssa.Value{}, rootBusy: map[ssa.Value]bool{}}
+		Names: map[ssa.Value]string{}, idx: map[ssa.Instruction]int{}, lenCanon: map[ssa.Value]ssa.Value{}, rootBusy: map[ssa.Value]bool{},
+		env: map[ssa.Value]ssa.Value{}, symOf: map[ssa.Value]Sym{}}
 	for _, b := range fn.Blocks {
 		for i, in := range b.Instrs {
 			x.idx[in] = i
 		}
 	}
 	x.findLoops()
-	x.findRoots()
 	return x
+}
+
+// res follows the unrolling environment.
+func (x *X) res(v ssa.Value) ssa.Value {
+	for d := 0; d < 8; d++ {
+		r, ok := x.env[v]
+		if !ok || r == nil {
+			return v
+		}
+		v = r
+	}
+	return v
 }
 
 func deref(t types.Type) types.Type {
@@ -427,6 +492,93 @@ func constI(v ssa.Value) (int64, bool) {
 	return constant.Int64Val(k.Value)
 }
 
+// FoldConst evaluates an integer value that is fixed at compile time although
+// go/ssa keeps it as an instruction: an index into a constant string by a
+// constant, conversions and +, -, <<, >>, &, | of such values. Arithmetic is
+// carried out in the (unsigned or signed) width of the value's type.
+func (x *X) FoldConst(v ssa.Value) (int64, bool) { return foldConst(x.res(v), 0) }
+
+func foldConst(v ssa.Value, d int) (int64, bool) {
+	if d > 12 {
+		return 0, false
+	}
+	wrap := func(k int64, t types.Type) (int64, bool) {
+		bits, signed, ok := intBits(t)
+		if !ok {
+			return 0, false
+		}
+		if bits >= 64 {
+			return k, true
+		}
+		m := int64(1) << uint(bits)
+		k &= m - 1
+		if signed && k >= m/2 {
+			k -= m
+		}
+		return k, true
+	}
+	if k, ok := constI(v); ok {
+		return k, true
+	}
+	index := func(xv, iv ssa.Value) (int64, bool) {
+		k, ok := xv.(*ssa.Const)
+		if !ok || k.Value == nil || k.Value.Kind() != constant.String {
+			return 0, false
+		}
+		s := constant.StringVal(k.Value)
+		i, ok := foldConst(iv, d+1)
+		if !ok || i < 0 || i >= int64(len(s)) {
+			return 0, false
+		}
+		return int64(s[i]), true
+	}
+	switch t := v.(type) {
+	case *ssa.Lookup:
+		return index(t.X, t.Index)
+	case *ssa.Index:
+		return index(t.X, t.Index)
+	case *ssa.Convert:
+		k, ok := foldConst(t.X, d+1)
+		if !ok {
+			return 0, false
+		}
+		return wrap(k, t.Type())
+	case *ssa.ChangeType:
+		return foldConst(t.X, d+1)
+	case *ssa.BinOp:
+		a, ok1 := foldConst(t.X, d+1)
+		b, ok2 := foldConst(t.Y, d+1)
+		if !ok1 || !ok2 {
+			return 0, false
+		}
+		var r int64
+		switch t.Op {
+		case token.ADD:
+			r = a + b
+		case token.SUB:
+			r = a - b
+		case token.AND:
+			r = a & b
+		case token.OR:
+			r = a | b
+		case token.SHL:
+			if b < 0 || b > 62 {
+				return 0, false
+			}
+			r = a << uint(b)
+		case token.SHR:
+			if b < 0 || b > 62 {
+				return 0, false
+			}
+			r = a >> uint(b)
+		default:
+			return 0, false
+		}
+		return wrap(r, t.Type())
+	}
+	return 0, false
+}
+
 var putW = map[string]int{"PutUint16": 2, "PutUint32": 4, "PutUint64": 8}
 var getW = map[string]int{"Uint16": 2, "Uint32": 4, "Uint64": 8}
 var appW = map[string]int{"AppendUint16": 2, "AppendUint32": 4, "AppendUint64": 8}
@@ -524,6 +676,10 @@ func (x *X) Sym(v ssa.Value) Sym {
 	if x.depth > 80 {
 		return SymT(v)
 	}
+	v = x.res(v)
+	if s, ok := x.symOf[v]; ok {
+		return s
+	}
 	if k, ok := constI(v); ok {
 		return SymK(k)
 	}
@@ -572,6 +728,15 @@ func (x *X) Sym(v ssa.Value) Sym {
 				}
 			}
 		}
+		// n := copy(buf[a:], src) with room for all of src: n = len(src)
+		if b, ok := t.Call.Value.(*ssa.Builtin); ok && b.Name() == "copy" {
+			if mk, off, okv := x.viewOf(t.Call.Args[0]); okv {
+				n := x.lenSym(t.Call.Args[1])
+				if x.nonNeg(x.Sym(mk.Len).Sub(off).Sub(n)) {
+					return n
+				}
+			}
+		}
 	}
 	return SymT(v)
 }
@@ -617,13 +782,22 @@ func (x *X) forward(ld *ssa.UnOp) ssa.Value {
 	if len(whole) != 1 || !x.domI(whole[0], ld) {
 		return ld
 	}
-	src, ok := whole[0].Val.(*ssa.UnOp)
+	if val, ok := x.litField(whole[0].Val, fa.Field); ok {
+		return val
+	}
+	return ld
+}
+
+// litField: v is (resolves to) a whole-struct load of a composite-literal
+// temporary; returns the value stored into field `field` of that literal.
+func (x *X) litField(v ssa.Value, field int) (ssa.Value, bool) {
+	src, ok := x.res(v).(*ssa.UnOp)
 	if !ok || src.Op != token.MUL {
-		return ld
+		return nil, false
 	}
 	lit, ok := src.X.(*ssa.Alloc)
 	if !ok || lit.Referrers() == nil {
-		return ld
+		return nil, false
 	}
 	var val ssa.Value
 	n := 0
@@ -636,26 +810,26 @@ func (x *X) forward(ld *ssa.UnOp) ssa.Value {
 					continue
 				}
 				if !x.domI(st, src) {
-					return ld
+					return nil, false
 				}
-				if y.Field == fa.Field {
+				if y.Field == field {
 					val = st.Val
 					n++
 				}
 			}
 		case *ssa.UnOp:
 			if y != src {
-				return ld
+				return nil, false
 			}
 		case *ssa.DebugRef:
 		default:
-			return ld
+			return nil, false
 		}
 	}
 	if n != 1 {
-		return ld
+		return nil, false
 	}
-	return val
+	return val, true
 }
 
 // CellRoot maps a captured variable (FreeVar) to the Alloc it is bound to.
@@ -814,6 +988,7 @@ func (x *X) Path(addr ssa.Value) (string, bool) {
 }
 
 func (x *X) basePath(v ssa.Value) (string, bool) {
+	v = x.res(v)
 	if p, ok := x.Roots[v]; ok {
 		return p, true
 	}
@@ -829,10 +1004,30 @@ func (x *X) basePath(v ssa.Value) (string, bool) {
 			if rep != ssa.Value(t) {
 				return x.basePath(rep)
 			}
+			if fw := x.forward(t); fw != ssa.Value(t) {
+				return x.basePath(fw)
+			}
 		}
+	case *ssa.Field:
+		if fv, ok := x.litField(t.X, t.Field); ok {
+			return x.basePath(fv)
+		}
+	case *ssa.ChangeType:
+		return x.basePath(t.X)
 	case *ssa.Slice:
 		if _, ok := x.litOf(t); ok {
 			return "§", true
+		}
+		// a proper sub-slice is not the section itself (range s[1:] skips an element)
+		if t.Low != nil {
+			if k, isK := constI(t.Low); !isK || k != 0 {
+				return "", false
+			}
+		}
+		if t.High != nil || t.Max != nil {
+			if _, isArr := deref(t.X.Type()).Underlying().(*types.Array); !isArr {
+				return "", false
+			}
 		}
 		return x.basePath(t.X)
 	}
@@ -906,7 +1101,19 @@ func (x *X) litOf(v ssa.Value) ([]string, bool) {
 func (x *X) findRoots() {
 	fn := x.Fn
 	var structParams []*ssa.Parameter
+	seeded := map[*ssa.Parameter]bool{}
 	for i, p := range fn.Params {
+		if _, ok := x.Roots[p]; ok {
+			// bound by the caller (helper analysed at its call site)
+			seeded[p] = true
+			if isStruct(deref(p.Type())) {
+				structParams = append(structParams, p)
+			}
+			continue
+		}
+		if x.Parent != nil {
+			continue
+		}
 		if fn.Signature.Recv() != nil && i == 0 {
 			x.Roots[p] = ""
 			continue
@@ -919,6 +1126,9 @@ func (x *X) findRoots() {
 		pre := ""
 		if len(structParams) > 1 || fn.Signature.Recv() != nil {
 			pre = p.Name()
+		}
+		if seeded[p] {
+			pre = x.Roots[p]
 		}
 		if _, isPtr := p.Type().Underlying().(*types.Pointer); isPtr {
 			x.Roots[p] = pre
@@ -961,12 +1171,13 @@ func (x *X) allocRoot(al *ssa.Alloc) (string, bool) {
 		}
 	}
 	if len(whole) == 1 {
-		if ld, ok := whole[0].Val.(*ssa.UnOp); ok && ld.Op == token.MUL {
+		wv := x.res(whole[0].Val)
+		if ld, ok := wv.(*ssa.UnOp); ok && ld.Op == token.MUL {
 			if p, ok := x.Path(ld.X); ok {
 				return p, true
 			}
 		}
-		if ld, ok := whole[0].Val.(*ssa.UnOp); ok && ld.Op == token.MUL {
+		if ld, ok := wv.(*ssa.UnOp); ok && ld.Op == token.MUL {
 			if lit, ok := ld.X.(*ssa.Alloc); ok && isStruct(deref(lit.Type())) {
 				// rr := T{…}: initialised from a composite-literal temporary, then filled further
 				return x.destOfObject(al)
@@ -1158,6 +1369,7 @@ func (x *X) SymString(s Sym) string {
 // and/or an expression (len(F), a constant).
 func (x *X) desc(v ssa.Value) (field, expr string, lenOf ssa.Value, narrow bool) {
 	for {
+		v = x.res(v)
 		switch t := v.(type) {
 		case *ssa.Convert:
 			if _, _, isInt := intBits(t.Type()); isInt {
@@ -1199,6 +1411,15 @@ func (x *X) desc(v ssa.Value) (field, expr string, lenOf ssa.Value, narrow bool)
 			if okp {
 				return p, "", nil, narrow
 			}
+			if fw := x.forward(t); fw != ssa.Value(t) {
+				f2, e2, l2, n2 := x.desc(fw)
+				return f2, e2, l2, narrow || n2
+			}
+		}
+	case *ssa.Field:
+		if fv, ok := x.litField(t.X, t.Field); ok {
+			f2, e2, l2, n2 := x.desc(fv)
+			return f2, e2, l2, narrow || n2
 		}
 	case *ssa.Call:
 		if b, ok := t.Call.Value.(*ssa.Builtin); ok && b.Name() == "len" {
@@ -1226,6 +1447,25 @@ func (x *X) desc(v ssa.Value) (field, expr string, lenOf ssa.Value, narrow bool)
 func (x *X) Desc(v ssa.Value) (field, expr string) {
 	f, e, _, _ := x.desc(v)
 	return f, e
+}
+
+// Rep canonicalises a value for identity comparisons: conversions are stripped
+// and a load is replaced by its available-load representative (two loads of
+// the same location with no possible store in between are the same value).
+func (x *X) Rep(v ssa.Value) ssa.Value {
+	v = StripConv(x.res(v))
+	for d := 0; d < 8; d++ {
+		ld, ok := v.(*ssa.UnOp)
+		if !ok || ld.Op != token.MUL {
+			break
+		}
+		rep := x.FI.LoadRep(ld)
+		if rep == ssa.Value(ld) {
+			break
+		}
+		v = StripConv(rep)
+	}
+	return v
 }
 
 // StripConv removes integer and byte-sequence conversions.
